@@ -266,6 +266,7 @@ impl Ctx {
     }
 
     pub fn finish(mut self) -> i32 {
+        cleanup_scratch();
         let wall = self.start.elapsed().as_secs_f64();
         let mut coverage = serde_json::Map::new();
         coverage.insert("evaluations".into(), json!(self.evaluations));
@@ -830,4 +831,44 @@ pub type LabelSet = BTreeSet<String>;
 
 pub fn db_err(msg: &str) -> agdb::DbError {
     agdb::DbError::query(agdb::DbErrorType::NotAllowed, msg)
+}
+
+// ---------------------------------------------------------------------------------------
+// scratch files
+
+static SCRATCH_COUNTER: std::sync::atomic::AtomicU64 = std::sync::atomic::AtomicU64::new(0);
+
+pub fn scratch_root() -> PathBuf {
+    let base = std::env::var("VERIF_SCRATCH").unwrap_or_else(|_| "/tmp".into());
+    let p = PathBuf::from(base).join(format!("verif-{}", std::process::id()));
+    let _ = std::fs::create_dir_all(&p);
+    p
+}
+
+/// A fresh sub-directory of the process scratch root.
+pub fn fresh_dir(tag: &str) -> PathBuf {
+    let n = SCRATCH_COUNTER.fetch_add(1, std::sync::atomic::Ordering::Relaxed);
+    let p = scratch_root().join(format!("{tag}-{n}"));
+    std::fs::create_dir_all(&p).expect("cannot create scratch dir");
+    p
+}
+
+pub fn cleanup_scratch() {
+    let _ = std::fs::remove_dir_all(scratch_root());
+}
+
+/// A directory removed on drop.
+pub struct TempDir(pub PathBuf);
+impl TempDir {
+    pub fn new(tag: &str) -> Self {
+        TempDir(fresh_dir(tag))
+    }
+    pub fn file(&self, name: &str) -> String {
+        self.0.join(name).to_string_lossy().to_string()
+    }
+}
+impl Drop for TempDir {
+    fn drop(&mut self) {
+        let _ = std::fs::remove_dir_all(&self.0);
+    }
 }
